@@ -30,3 +30,23 @@ package schema
 //@ func (*Field).setupValuerAndSetter${invoke:SerializerInterface.Scan}
 //@   tags C03
 //@   ensures scanned-holder-gets-new-instance: is(v, *serializer) && old(v.(*serializer).fieldValue) == nil && result == nil ==> newInstances == old(newInstances) + 1 && boxof(v.(*serializer).Serializer) == uf("ifaceOfValue", lastNewPtr)
+
+//@ # ---------- C08: the soft-delete clauses of a field are looked up on a pointer to its indirect type ----------
+//@ # gorm.DeletedAt implements the Query/Update/Delete clause interfaces on the value type; a field declared
+//@ # as *gorm.DeletedAt must register the same clauses, so the probe is reflect.New(field.IndirectFieldType).
+//@ ghost probeTypeTag probeTypeBox probePtr
+//@ event call reflect.New
+//@   in schema.ParseWithSpecialTableName
+//@   do probeTypeTag = tagof(arg0)
+//@   do probeTypeBox = boxof(arg0)
+//@   do probePtr = result.ptr
+//@ site clause-hooks-probed-on-indirect-type
+//@   match invoke CreateClausesInterface.CreateClauses | invoke QueryClausesInterface.QueryClauses | invoke UpdateClausesInterface.UpdateClauses | invoke DeleteClausesInterface.DeleteClauses
+//@   in schema.ParseWithSpecialTableName
+//@   min-sites 4
+//@   assert probe-type-is-indirect-field-type: probeTypeTag == tagof(field.IndirectFieldType) && probeTypeBox == boxof(field.IndirectFieldType) [C08]
+//@   assert hooks-called-on-the-probe: boxof(recv) == uf("ifaceOfValue", probePtr) [C08]
+//@   assert hooks-get-their-field: arg0 == field [C08]
+//@ immutable Field.IndirectFieldType
+//@   writers schema.(*Schema).ParseField
+//@   tags C08
